@@ -207,6 +207,16 @@ class Project:
                         for sub in _nested_defs(cst):
                             add_func(sub, f"{q}.<locals>", parent=fi)
 
+    def reindex(self) -> None:
+        """Rebuild the name indexes from the (rewritten) syntax trees."""
+        self.funcs.clear()
+        for m in self.modules.values():
+            m.funcs.clear()
+            m.classes.clear()
+            m.imports.clear()
+            m.top_assigns.clear()
+            self._index(m)
+
     # ------------------------------------------------------------------ queries
     def module(self, name: str) -> Module:
         if name not in self.modules:
